@@ -46,6 +46,15 @@ Theorem C13_from_any_waiting_state : forall k p reads,
 Proof. exact msg_feeds_concat_from. Qed.
 Print Assumptions C13_from_any_waiting_state.
 
+(* Message sequences with parser reuse (one Requestant per keep-alive
+   connection, makeParser after every answered request): what the application
+   is handed for each request of the sequence -- method, target, body -- does
+   not depend on how the bytes of the sequence were split into reads. *)
+Theorem C13_message_sequence : forall reads1 reads2,
+  concat reads1 = concat reads2 -> seen_of reads1 = seen_of reads2.
+Proof. intros r1 r2 E. unfold seen_of. rewrite (run_case_partition Req r1 r2 false E). reflexivity. Qed.
+Print Assumptions C13_message_sequence.
+
 (* Non-vacuity: a pipelined request sequence (chunked with extension and
    trailer, then bare-LF HTTP/1.0 keep-alive, then content-length) read whole
    and byte by byte gives three messages with the expected bodies. *)
@@ -62,5 +71,5 @@ Example C13_example :
   whole = bytewise /\
   map g_body (snd whole) = [of_bytes [x0d;x0a]; []; of_bytes [x61;x0d;x0a]] /\
   map g_persisted (snd whole) = [true; false; true] /\
-  map g_trails (snd whole) = [Some [(of_bytes [x74], of_bytes [x31])]; Some [(of_bytes [x74], of_bytes [x31])]; Some [(of_bytes [x74], of_bytes [x31])]].
+  map g_trails (snd whole) = [Some [(of_bytes [x74], of_bytes [x31])]; None; None].
 Proof. vm_compute. repeat split. Qed.
